@@ -160,8 +160,191 @@ func c04Run(r *Run) {
 	type c04Bind struct {
 		funcs map[types.Object]*types.Func
 		toks  map[types.Object][]string
+		ints  map[types.Object]int64 // level parameter (and other integer parameters) of a level-indexed function
+		bools map[types.Object]bool
 	}
 	var bind *c04Bind
+	// package-level tables: var T = []X{…} / map[K]X{…}
+	tableLit := func(e ast.Expr) *ast.CompositeLit {
+		id, ok := ast.Unparen(e).(*ast.Ident)
+		if !ok {
+			return nil
+		}
+		v, ok := info.Uses[id].(*types.Var)
+		if !ok || v.Parent() != ppkg.Types.Scope() {
+			return nil
+		}
+		for _, f := range ppkg.Syntax {
+			for _, d := range f.Decls {
+				gd, ok := d.(*ast.GenDecl)
+				if !ok || gd.Tok != token.VAR {
+					continue
+				}
+				for _, sp := range gd.Specs {
+					vs := sp.(*ast.ValueSpec)
+					for i, nm := range vs.Names {
+						if info.Defs[nm] == v && i < len(vs.Values) {
+							cl, _ := ast.Unparen(vs.Values[i]).(*ast.CompositeLit)
+							return cl
+						}
+					}
+				}
+			}
+		}
+		return nil
+	}
+	var evalInt func(e ast.Expr) (int64, bool)
+	evalInt = func(e ast.Expr) (int64, bool) {
+		e = ast.Unparen(e)
+		if tv, ok := info.Types[e]; ok && tv.Value != nil && tv.Value.Kind() == constant.Int {
+			if v, exact := constant.Int64Val(tv.Value); exact {
+				return v, true
+			}
+		}
+		switch x := e.(type) {
+		case *ast.Ident:
+			if bind != nil {
+				if v, ok := bind.ints[info.Uses[x]]; ok {
+					return v, true
+				}
+			}
+		case *ast.BinaryExpr:
+			a, ok1 := evalInt(x.X)
+			b, ok2 := evalInt(x.Y)
+			if ok1 && ok2 {
+				switch x.Op {
+				case token.ADD:
+					return a + b, true
+				case token.SUB:
+					return a - b, true
+				}
+			}
+		case *ast.CallExpr:
+			// len(table)
+			if id, ok := ast.Unparen(x.Fun).(*ast.Ident); ok && id.Name == "len" && len(x.Args) == 1 {
+				if cl := tableLit(x.Args[0]); cl != nil {
+					if _, isMap := info.TypeOf(cl).Underlying().(*types.Map); !isMap {
+						n := int64(0)
+						for _, el := range cl.Elts {
+							if kv, ok := el.(*ast.KeyValueExpr); ok {
+								if k, ok := evalInt(kv.Key); ok && k+1 > n {
+									n = k + 1
+								}
+							} else {
+								n++
+							}
+						}
+						return n, true
+					}
+				}
+			}
+			// conversion T(x)
+			if tv, ok := info.Types[x.Fun]; ok && tv.IsType() && len(x.Args) == 1 {
+				return evalInt(x.Args[0])
+			}
+		}
+		return 0, false
+	}
+	var evalBool func(e ast.Expr) (bool, bool)
+	evalBool = func(e ast.Expr) (bool, bool) {
+		e = ast.Unparen(e)
+		if tv, ok := info.Types[e]; ok && tv.Value != nil && tv.Value.Kind() == constant.Bool {
+			return constant.BoolVal(tv.Value), true
+		}
+		switch x := e.(type) {
+		case *ast.Ident:
+			if bind != nil {
+				if v, ok := bind.bools[info.Uses[x]]; ok {
+					return v, true
+				}
+			}
+		case *ast.UnaryExpr:
+			if x.Op == token.NOT {
+				if v, ok := evalBool(x.X); ok {
+					return !v, true
+				}
+			}
+		case *ast.BinaryExpr:
+			switch x.Op {
+			case token.LAND, token.LOR:
+				a, ok1 := evalBool(x.X)
+				b, ok2 := evalBool(x.Y)
+				if x.Op == token.LAND {
+					if (ok1 && !a) || (ok2 && !b) {
+						return false, true
+					}
+					if ok1 && ok2 {
+						return true, true
+					}
+				} else {
+					if (ok1 && a) || (ok2 && b) {
+						return true, true
+					}
+					if ok1 && ok2 {
+						return false, true
+					}
+				}
+			case token.EQL, token.NEQ, token.LSS, token.LEQ, token.GTR, token.GEQ:
+				a, ok1 := evalInt(x.X)
+				b, ok2 := evalInt(x.Y)
+				if ok1 && ok2 {
+					switch x.Op {
+					case token.EQL:
+						return a == b, true
+					case token.NEQ:
+						return a != b, true
+					case token.LSS:
+						return a < b, true
+					case token.LEQ:
+						return a <= b, true
+					case token.GTR:
+						return a > b, true
+					case token.GEQ:
+						return a >= b, true
+					}
+				}
+			}
+		}
+		return false, false
+	}
+	// level-indexed functions: an integer-kind parameter p and a self-call that passes p+1 in its place;
+	// each constant value of p denotes a level of its own (a virtual function)
+	levelParamMemo := map[*ast.FuncDecl]int{}
+	levelParam := func(fd *ast.FuncDecl) int {
+		if fd == nil || fd.Body == nil {
+			return -1
+		}
+		if v, ok := levelParamMemo[fd]; ok {
+			return v
+		}
+		levelParamMemo[fd] = -1
+		self := info.Defs[fd.Name]
+		k := 0
+		for _, f := range fd.Type.Params.List {
+			for _, nm := range f.Names {
+				po := info.Defs[nm]
+				if bt, ok := info.TypeOf(f.Type).Underlying().(*types.Basic); ok && bt.Info()&types.IsInteger != 0 {
+					idx := k
+					ast.Inspect(fd.Body, func(n ast.Node) bool {
+						c, ok := n.(*ast.CallExpr)
+						if !ok || calleeOf(info, c) != self || idx >= len(c.Args) {
+							return true
+						}
+						if be, ok := ast.Unparen(c.Args[idx]).(*ast.BinaryExpr); ok && be.Op == token.ADD {
+							if id, ok := ast.Unparen(be.X).(*ast.Ident); ok && info.Uses[id] == po {
+								levelParamMemo[fd] = idx
+							}
+						}
+						return true
+					})
+				}
+				k++
+			}
+		}
+		return levelParamMemo[fd]
+	}
+	virtOf := map[string]*types.Func{}
+	vbind := map[*types.Func]*c04Bind{}
 	resolve := func(c *ast.CallExpr) *types.Func {
 		if bind != nil {
 			if id, ok := ast.Unparen(c.Fun).(*ast.Ident); ok {
@@ -171,7 +354,45 @@ func c04Run(r *Run) {
 			}
 		}
 		f, _ := calleeOf(info, c).(*types.Func)
-		return f
+		if f == nil {
+			return nil
+		}
+		fd := declOf[f]
+		lp := levelParam(fd)
+		if lp < 0 || lp >= len(c.Args) {
+			return f
+		}
+		lvl, ok := evalInt(c.Args[lp])
+		if !ok {
+			return f
+		}
+		b := &c04Bind{funcs: map[types.Object]*types.Func{}, toks: map[types.Object][]string{}, ints: map[types.Object]int64{}, bools: map[types.Object]bool{}}
+		key := fmt.Sprintf("%p", fd)
+		for i, a := range c.Args {
+			po := paramObjAt(info, fd, i)
+			if po == nil {
+				continue
+			}
+			if v, ok := evalInt(a); ok {
+				if _, isInt := po.Type().Underlying().(*types.Basic); isInt && po.Type().Underlying().(*types.Basic).Info()&types.IsInteger != 0 {
+					b.ints[po] = v
+					key += fmt.Sprintf("/%d=%d", i, v)
+					continue
+				}
+			}
+			if v, ok := evalBool(a); ok {
+				b.bools[po] = v
+				key += fmt.Sprintf("/%d=%v", i, v)
+			}
+		}
+		if vf := virtOf[key]; vf != nil {
+			return vf
+		}
+		vf := types.NewFunc(fd.Pos(), ppkg.Types, fmt.Sprintf("%s[%d]", f.Name(), lvl), f.Type().(*types.Signature))
+		virtOf[key] = vf
+		vbind[vf] = b
+		declOf[vf] = fd
+		return vf
 	}
 
 	// condition → tokens at offset 0
@@ -214,6 +435,81 @@ func c04Run(r *Run) {
 		}
 		return "", false
 	}
+	// tokensOf: the operator tokens an expression denotes — a token constant, a bound parameter, an entry
+	// of a package-level table selected by a known level (table[level]), or a local holding one of those
+	var tokensOf func(e ast.Expr, fd *ast.FuncDecl, depth int) ([]string, bool)
+	tokensOf = func(e ast.Expr, fd *ast.FuncDecl, depth int) ([]string, bool) {
+		if depth > 3 {
+			return nil, false
+		}
+		e = ast.Unparen(e)
+		if l, ok := tokOf(e); ok {
+			return []string{l}, true
+		}
+		switch x := e.(type) {
+		case *ast.Ident:
+			o := info.Uses[x]
+			if bind != nil {
+				if ts, ok := bind.toks[o]; ok {
+					return ts, true
+				}
+			}
+			// a local with a single definition
+			if v, ok := o.(*types.Var); ok && fd != nil && v.Parent() != ppkg.Types.Scope() {
+				var def ast.Expr
+				n := 0
+				ast.Inspect(fd.Body, func(m ast.Node) bool {
+					if as, ok := m.(*ast.AssignStmt); ok && len(as.Lhs) == len(as.Rhs) {
+						for i, l := range as.Lhs {
+							if lid, ok := l.(*ast.Ident); ok && (info.Defs[lid] == o || info.Uses[lid] == o) {
+								def = as.Rhs[i]
+								n++
+							}
+						}
+					}
+					return true
+				})
+				if n == 1 {
+					return tokensOf(def, fd, depth+1)
+				}
+			}
+		case *ast.CompositeLit:
+			var out []string
+			for _, el := range x.Elts {
+				ts, ok := tokensOf(el, fd, depth+1)
+				if !ok {
+					return nil, false
+				}
+				out = append(out, ts...)
+			}
+			return out, true
+		case *ast.IndexExpr:
+			cl := tableLit(x.X)
+			k, ok := evalInt(x.Index)
+			if cl == nil || !ok {
+				return nil, false
+			}
+			pos := int64(0)
+			for _, el := range cl.Elts {
+				if kv, isKV := el.(*ast.KeyValueExpr); isKV {
+					if kk, ok := evalInt(kv.Key); ok {
+						if kk == k {
+							return tokensOf(kv.Value, fd, depth+1)
+						}
+						pos = kk + 1
+					}
+					continue
+				}
+				if pos == k {
+					return tokensOf(el, fd, depth+1)
+				}
+				pos++
+			}
+			return []string{}, true // no entry for this level: no operators
+		}
+		return nil, false
+	}
+	var curFd *ast.FuncDecl
 	condToks = func(e ast.Expr) ([]string, bool) {
 		switch x := ast.Unparen(e).(type) {
 		case *ast.BinaryExpr:
@@ -224,8 +520,30 @@ func c04Run(r *Run) {
 				return append(a, b...), s1 || s2
 			case token.EQL:
 				if isCurrentType(x.X) {
-					if l, ok := tokOf(x.Y); ok {
-						return []string{l}, false
+					if ts, ok := tokensOf(x.Y, curFd, 0); ok {
+						return ts, false
+					}
+				}
+			}
+		case *ast.IndexExpr:
+			// membership in a package-level operator set: ops[ep.current().Type()]
+			if isCurrentType(x.Index) {
+				if cl := tableLit(x.X); cl != nil {
+					if _, isMap := info.TypeOf(cl).Underlying().(*types.Map); isMap {
+						var out []string
+						for _, el := range cl.Elts {
+							kv, ok := el.(*ast.KeyValueExpr)
+							if !ok {
+								continue
+							}
+							if v, known := evalBool(kv.Value); known && !v {
+								continue
+							}
+							if l, ok := tokOf(kv.Key); ok {
+								out = append(out, l)
+							}
+						}
+						return out, false
 					}
 				}
 			}
@@ -237,14 +555,8 @@ func c04Run(r *Run) {
 						if tv, ok := info.Types[x.Args[0]]; ok && tv.Value != nil && tv.Value.String() == "0" {
 							var out []string
 							for _, a := range x.Args[1:] {
-								if id, ok := ast.Unparen(a).(*ast.Ident); ok && bind != nil && x.Ellipsis.IsValid() {
-									if ts, ok := bind.toks[info.Uses[id]]; ok {
-										out = append(out, ts...)
-										continue
-									}
-								}
-								if l, ok := tokOf(a); ok {
-									out = append(out, l)
+								if ts, ok := tokensOf(a, curFd, 0); ok {
+									out = append(out, ts...)
 								}
 							}
 							return out, false
@@ -344,9 +656,100 @@ func c04Run(r *Run) {
 		}
 		return hd, b
 	}
+	// analyseAs analyses a function object: a declared function, or a virtual level of a level-indexed one
+	analyseAs := func(self *types.Func) *c04Level {
+		fd := declOf[self]
+		if fd == nil {
+			return nil
+		}
+		if vb := vbind[self]; vb != nil {
+			saved := bind
+			bind = vb
+			lv := analyse(fd)
+			bind = saved
+			lv.obj = self
+			return lv
+		}
+		return analyse(fd)
+	}
+	// effective: the statements that run under the current binding (decidable ifs and switches on the
+	// level parameter are resolved; everything else is kept as written)
+	var effective func(list []ast.Stmt) ([]ast.Stmt, bool)
+	effective = func(list []ast.Stmt) ([]ast.Stmt, bool) {
+		var out []ast.Stmt
+		for _, st := range list {
+			switch x := st.(type) {
+			case *ast.IfStmt:
+				if x.Init == nil && bind != nil {
+					if v, ok := evalBool(x.Cond); ok {
+						var branch []ast.Stmt
+						if v {
+							branch = x.Body.List
+						} else if x.Else != nil {
+							switch e := x.Else.(type) {
+							case *ast.BlockStmt:
+								branch = e.List
+							case *ast.IfStmt:
+								branch = []ast.Stmt{e}
+							}
+						}
+						sub, term := effective(branch)
+						out = append(out, sub...)
+						if term {
+							return out, true
+						}
+						continue
+					}
+				}
+			case *ast.SwitchStmt:
+				if x.Init == nil && x.Tag != nil && bind != nil {
+					if tv, ok := evalInt(x.Tag); ok {
+						var chosen, def *ast.CaseClause
+						decided := true
+						for _, c := range x.Body.List {
+							cc := c.(*ast.CaseClause)
+							if cc.List == nil {
+								def = cc
+							}
+							for _, v := range cc.List {
+								cv, ok := evalInt(v)
+								if !ok {
+									decided = false
+								} else if cv == tv && chosen == nil {
+									chosen = cc
+								}
+							}
+						}
+						if decided {
+							if chosen == nil {
+								chosen = def
+							}
+							if chosen != nil {
+								sub, term := effective(chosen.Body)
+								out = append(out, sub...)
+								if term {
+									return out, true
+								}
+							}
+							continue
+						}
+					}
+				}
+			case *ast.ReturnStmt:
+				out = append(out, st)
+				return out, true
+			}
+			out = append(out, st)
+		}
+		return out, false
+	}
 	analyse = func(fd *ast.FuncDecl) *c04Level {
 		obj, _ := info.Defs[fd.Name].(*types.Func)
 		lv := &c04Level{fd: fd, obj: obj}
+		savedFd := curFd
+		curFd = fd
+		defer func() { curFd = savedFd }()
+		body, _ := effective(fd.Body.List)
 		if bind == nil {
 			if hd, b := genericCall(fd); hd != nil {
 				bind = b
@@ -362,7 +765,7 @@ func c04Run(r *Run) {
 		}
 		var leftPos token.Pos
 		// first parse call in a top-level statement
-		for _, s := range fd.Body.List {
+		for _, s := range body {
 			found := false
 			var call *ast.CallExpr
 			switch x := s.(type) {
@@ -457,6 +860,9 @@ func c04Run(r *Run) {
 			lv.guards = append(lv.guards, g)
 		}
 		visit = func(list []ast.Stmt) {
+			if bind != nil {
+				list, _ = effective(list)
+			}
 			for _, s := range list {
 				switch x := s.(type) {
 				case *ast.ForStmt:
@@ -502,7 +908,7 @@ func c04Run(r *Run) {
 				}
 			}
 		}
-		visit(fd.Body.List)
+		visit(body)
 		return lv
 	}
 
@@ -520,16 +926,16 @@ func c04Run(r *Run) {
 	var chain []*c04Level
 	depth := map[*types.Func]int{}
 	{
-		cur := start
-		seen := map[*ast.FuncDecl]bool{}
-		for cur != nil && !seen[cur] {
+		cur, _ := info.Defs[start.Name].(*types.Func)
+		seen := map[*types.Func]bool{}
+		for cur != nil && !seen[cur] && declOf[cur] != nil {
 			seen[cur] = true
-			lv := analyse(cur)
+			lv := analyseAs(cur)
 			// the entry function's left is the call in its return statement
 			if lv.left == nil && len(chain) == 0 {
-				ast.Inspect(cur.Body, func(n ast.Node) bool {
+				ast.Inspect(declOf[cur].Body, func(n ast.Node) bool {
 					if c, ok := n.(*ast.CallExpr); ok {
-						if cal, ok := calleeOf(info, c).(*types.Func); ok && isParseSig(cal) && lv.left == nil {
+						if cal := resolve(c); cal != nil && isParseSig(cal) && lv.left == nil {
 							lv.left = cal
 						}
 					}
@@ -542,7 +948,7 @@ func c04Run(r *Run) {
 			if lv.left == nil {
 				break
 			}
-			cur = declOf[lv.left]
+			cur = lv.left
 		}
 	}
 	if len(chain) < 10 {
@@ -568,15 +974,43 @@ func c04Run(r *Run) {
 	for len(work) > 0 {
 		f := work[len(work)-1]
 		work = work[:len(work)-1]
-		ast.Inspect(declOf[f].Body, func(n ast.Node) bool {
+		// the edges of the analysed level (they name virtual levels where the callee is level-indexed)
+		if recvTypeName(declOf[f]) == "ExpressionParser" && levelParam(declOf[f]) < 0 || vbind[f] != nil {
+			lv := levels[f]
+			if lv == nil {
+				lv = analyseAs(f)
+				levels[f] = lv
+			}
+			if lv != nil {
+				push(lv.left)
+				for _, g := range lv.guards {
+					for _, rt := range g.rights {
+						push(rt)
+					}
+				}
+			}
+		}
+		scan := func(n ast.Node) bool {
 			// calls and method values handed to a generic level helper
 			if id, ok := n.(*ast.Ident); ok {
-				if cal, ok := info.Uses[id].(*types.Func); ok && isParseSig(cal) {
+				if cal, ok := info.Uses[id].(*types.Func); ok && isParseSig(cal) && levelParam(declOf[cal]) < 0 {
 					push(cal)
 				}
 			}
 			return true
-		})
+		}
+		if vb := vbind[f]; vb != nil {
+			// a virtual level: only the statements that run at this level
+			saved := bind
+			bind = vb
+			body, _ := effective(declOf[f].Body.List)
+			bind = saved
+			for _, st := range body {
+				ast.Inspect(st, scan)
+			}
+		} else {
+			ast.Inspect(declOf[f].Body, scan)
+		}
 	}
 	r.stat("functions_reachable_from_Parse", len(reach))
 
@@ -601,6 +1035,41 @@ func c04Run(r *Run) {
 		return false
 	}
 	// a helper belongs to the deepest chain level that calls it (directly or through helpers)
+	helperGuards := map[*types.Func][]*opGuard{}
+	sharedHelper := map[[2]*c04Level]bool{}
+	// appliedToOwnLeft: the helper call continues the level's own left operand (the variable assigned from
+	// its first operand parse), not a right operand that is being completed
+	appliedToOwnLeft := func(fd *ast.FuncDecl, c *ast.CallExpr) bool {
+		var leftVar types.Object
+		for _, st := range fd.Body.List {
+			as, ok := st.(*ast.AssignStmt)
+			if !ok || len(as.Rhs) != 1 {
+				continue
+			}
+			call, ok := ast.Unparen(as.Rhs[0]).(*ast.CallExpr)
+			if !ok {
+				continue
+			}
+			if cal, _ := calleeOf(info, call).(*types.Func); cal != nil && isParseSig(cal) {
+				if id, ok := as.Lhs[0].(*ast.Ident); ok {
+					leftVar = info.Defs[id]
+					if leftVar == nil {
+						leftVar = info.Uses[id]
+					}
+				}
+				break
+			}
+		}
+		if leftVar == nil {
+			return false
+		}
+		for _, a := range c.Args {
+			if id, ok := ast.Unparen(a).(*ast.Ident); ok && info.Uses[id] == leftVar {
+				return true
+			}
+		}
+		return false
+	}
 	for i := len(chain) - 1; i >= 0; i-- {
 		lv := chain[i]
 		var addHelpers func(fd *ast.FuncDecl, d int)
@@ -614,7 +1083,18 @@ func c04Run(r *Run) {
 					return true
 				}
 				cal, _ := calleeOf(info, c).(*types.Func)
-				if !isHelperCandidate(cal) || helperOf[cal] != nil {
+				if !isHelperCandidate(cal) {
+					return true
+				}
+				if owner := helperOf[cal]; owner != nil {
+					// a helper shared by several levels (the assignment chain after an lvalue is parsed both at
+					// the assignment level and after a unary operand): its operators are consumed at each of them
+					if owner != lv && d == 0 && !sharedHelper[[2]*c04Level{lv, owner}] && appliedToOwnLeft(fd, c) {
+						sharedHelper[[2]*c04Level{lv, owner}] = true
+						for _, g := range helperGuards[cal] {
+							lv.guards = append(lv.guards, g)
+						}
+					}
 					return true
 				}
 				helperOf[cal] = lv
@@ -623,6 +1103,7 @@ func c04Run(r *Run) {
 					g.prefix = false
 					lv.guards = append(lv.guards, g)
 				}
+				helperGuards[cal] = h.guards
 				addHelpers(declOf[cal], d+1)
 				return true
 			})
@@ -646,9 +1127,12 @@ func c04Run(r *Run) {
 		if recvTypeName(fd) != "ExpressionParser" || helperOf[f] != nil || isGenericLevel(f) {
 			continue
 		}
+		if vbind[f] == nil && levelParam(fd) >= 0 {
+			continue // a level-indexed function is judged through its levels
+		}
 		lv := levels[f]
 		if lv == nil {
-			lv = analyse(fd)
+			lv = analyseAs(f)
 			levels[f] = lv
 		}
 		for _, g := range lv.guards {
